@@ -50,6 +50,10 @@ def run(F, chk):
                 if atom[0] != "call":
                     return False
                 fn = atom[2].get("fn", "")
+                # the comparison must be made in the decoded domain (Fingerprint values), the same domain the
+                # removal key lives in; comparing hex strings distinguishes spellings of one fingerprint
+                if "Fingerprint" not in (atom[2].get("recv") or atom[2].get("full") or ""):
+                    return False
                 if fn.endswith("PartialEq::eq"):
                     return truth is False
                 if fn.endswith("PartialEq::ne"):
@@ -67,7 +71,7 @@ def run(F, chk):
             if cond1 and cond2:
                 ra.ok(key, rp.where(bi), "dominated by the Ok edge of add_certificate and not reachable through the old==new edge")
             else:
-                ra.violation(key, rp.where(bi), "remove_certificate is reachable %s" % ("before/without a successful add_certificate" if not cond1 else "on the old == new fingerprint edge (would delete the certificate that was meant to stay)"))
+                ra.violation(key, rp.where(bi), "remove_certificate is reachable %s" % ("before/without a successful add_certificate" if not cond1 else "without passing the `old != new` edge of a comparison between decoded Fingerprint values (an idempotent replace - possibly spelled in another hex case - would delete the certificate that was meant to stay)"))
     # ---------------- R-C17-b -------------------------------------------------
     rb = chk.rule("R-C17-b", "T4+T3", "resolver indices: closed writer set, all three touched together", floor=4)
     FIELDS = ("domains", "certificates", "name_fingerprint_idx")
